@@ -1,5 +1,6 @@
 SPECIFICATION Spec
 CONSTANTS
+  SampleT = 24
   N = 16
   OorD = {0, 8}
   UpdIdx = {0, 9}
